@@ -21,10 +21,11 @@ deriving Repr, DecidableEq
 def le16 (s : Nat) : List Nat := [s % 256, s / 256]
 def le32 (x : Nat) : List Nat := [x % 256, x / 256 % 256, x / 65536 % 256, x / 16777216 % 256]
 
-/-- 1..11 syllables (non-zero 16-bit codes), a non-empty valid UTF-8 phrase that fits the record
+/-- 1..11 syllables (16-bit codes `Syllable::try_from` accepts — `validCode`; a stored value that is not a syllable
+    makes the importer reject the whole file), a non-empty valid UTF-8 phrase that fits the record
     and does not start with NUL, four 32-bit fields -/
 def GRec.Valid (g : GRec) : Prop :=
-  1 ≤ g.syls.length ∧ g.syls.length ≤ 11 ∧ (∀ s ∈ g.syls, 0 < s ∧ s < 65536) ∧
+  1 ≤ g.syls.length ∧ g.syls.length ≤ 11 ∧ (∀ s ∈ g.syls, validCode s = true ∧ s < 65536) ∧
   g.phrase ≠ [] ∧ g.phrase.head? ≠ some 0 ∧ (∀ b ∈ g.phrase, b < 256) ∧ validUtf8 g.phrase = true ∧
   17 + 2 * g.syls.length + 1 + g.phrase.length ≤ binFieldSize ∧
   g.fields.length = 4 ∧ (∀ x ∈ g.fields, x < 4294967296)
